@@ -421,10 +421,14 @@ theorem rowToRP_addc (s : Sim) (hiv : ∀ p ∈ s.ivDefaults, p.1 ≠ "release_t
   unfold Sim.rowToRP shiftRP
   simp only [addc, shiftRow, Sim.lookupVal]
   rw [RP.mk.injEq]
-  refine ⟨rfl, ?_, ?_, ?_, rfl, rfl, ?_, ?_⟩
+  refine ⟨rfl, ?_, ?_, ?_, ?_, ?_, ?_, ?_⟩
   · rw [hne _ _ (by decide), hne _ _ (by decide)]
   · rw [hne _ _ (by decide), hne _ _ (by decide)]
   · rw [hne _ _ (by decide), hne _ _ (by decide)]
+  · unfold Sim.flagOf
+    rw [hne _ _ (by decide), hne _ _ (by decide)]
+  · unfold Sim.flagOf
+    rw [hne _ _ (by decide), hne _ _ (by decide)]
   · apply List.map_congr_left
     rintro ⟨n, v⟩ hn
     rw [hne _ _ (hiv _ hn), hne _ _ (hiv _ hn)]
